@@ -198,6 +198,7 @@ def run_check(prop, harness_name, tier, seed, replay_path=None, selftest=False, 
         j["tier"] = tier
     nproc = nproc or int(os.environ.get("VERIF_NPROC", "0")) or min(16, os.cpu_count() or 4)
     wall_budget = H.WALL_BUDGET[tier] if hasattr(H, "WALL_BUDGET") else {"quick": 240, "thorough": 2400}[tier]
+    wall_budget *= float(os.environ.get("VERIF_BUDGET_SCALE", "1"))
 
     env = dict(os.environ)
     env["NUMBA_DISABLE_JIT"] = "1"
@@ -363,7 +364,7 @@ def run_check(prop, harness_name, tier, seed, replay_path=None, selftest=False, 
     def hard_limit(job):
         if hard:
             return hard
-        return 1.25 * (job.get("budget_s") or getattr(H, "JOB_BUDGET", 120)) + 60.0
+        return (1.25 * (job.get("budget_s") or getattr(H, "JOB_BUDGET", 120)) + 60.0) * float(os.environ.get("VERIF_BUDGET_SCALE", "1"))
     pl = _pool.Pool(nproc, hard_limit)
     killed = pl.run(jobs, handle, deadline, harness_errors)
     agg["jobs_skipped_budget"] = killed["not_started"]
